@@ -619,9 +619,7 @@ Lemma pass_sim : forall body st pst pst' o,
               map fst (f_glob st') = map fst (f_glob st).
 Proof.
   intros body st pst pst' o HI HS U P. unfold py_pass in P.
-  destruct (p_block true pst body) as [[pst1 o1]|e] eqn:E; cbn [pbind] in P; try discriminate.
-  injection P as <- <-.
-  destruct (block_sim true body st pst pst1 o1 HI HS U E) as (st1 & F & HI1 & HS1 & N1).
+  destruct (block_sim true body st pst pst' o HI HS U P) as (st1 & F & HI1 & HS1 & N1).
   unfold run_pass. rewrite F. cbn [rbind]. eexists. split; [reflexivity|].
   destruct HI1 as (Hl & Hw & Hb & Hc). destruct HS1 as (Pl & Pn & Pnm & Pb & Hv).
   split; [|split]; [unfold Inv; simpl; auto | unfold Sim; simpl; repeat split; auto | simpl; auto].
